@@ -222,6 +222,16 @@ def run(tier, replay=None):
                     orders.append([i for i in range(1, n + 1) for _ in (0, 1)])
                 jobs.append({'id': len(jobs), 'source': src, 'filename': '/nonexistent-verif-root/s%d.py' % mi, 'sites': sites,
                              'orders': orders, 'kind': 'scopes'})
+            # scopes with hundreds of regions (the analysis resolves them iteratively the first time a scope is queried)
+            for li, nifs in enumerate((120, 400)):
+                src = 'c = 0\n' + ''.join('if c:\n    v%d = %d\n' % (i % 7, i) for i in range(nifs)) + 'print(v3, c)\n'
+                sites = sorted((n.lineno, n.col_offset, n.id) for n in ast.walk(ast.parse(src)) if isinstance(n, ast.Name) and isinstance(n.ctx, ast.Load))
+                sites = [list(x) for x in sites]
+                n = len(sites)
+                sites = [sites[i - 1] for i in (1, 2, n // 2, n - 2, n - 1, n)]     # first, middle and last reads only
+                orders = [[1, 6], [6, 1], [1, 5, 6], [3, 6, 1], [1, 2, 3, 4, 5, 6], [6, 5, 4, 3, 2, 1], [2, 4, 1, 6]]
+                jobs.append({'id': len(jobs), 'source': src, 'filename': '/nonexistent-verif-root/long%d.py' % li, 'sites': sites,
+                             'orders': orders, 'kind': 'long'})
             files = sorted(glob.glob(os.path.join(core.REPO, 'supp', '*.py')) + glob.glob(os.path.join(core.REPO, 'tests', '*.py')))
             import sysconfig
             std = sorted(glob.glob(os.path.join(sysconfig.get_paths()['stdlib'], '*.py')))
